@@ -169,17 +169,19 @@ theorem astep_ref (f : Nat) (hV : AVal G f) : ARef G (f+1) := by
   | some t => simp [toPlain]
   | none =>
     simp only
-    cases ha : alloc s with
-    | error e => simp [toPlain]
-    | ok p =>
-      obtain ⟨n, s1⟩ := p
+    cases hw : walkFrom G s.trans r with
+    | fails e => simp [toPlain]
+    | dead => simp [toPlain]
+    | known t chain => simp [toPlain]
+    | ends v chain =>
       simp only
-      cases hr : resolveOrNull G r with
+      cases ha : alloc s with
       | error e => simp [toPlain]
-      | ok v =>
+      | ok p =>
+        obtain ⟨n, s1⟩ := p
         simp only
-        rw [← hV { s1 with trans := (r, n) :: s1.trans } v]
-        cases h : copyValE f G { s1 with trans := (r, n) :: s1.trans } v with
+        rw [← hV { s1 with trans := enter chain n s1.trans } v]
+        cases h : copyValE f G { s1 with trans := enter chain n s1.trans } v with
         | mk rr s3 =>
           cases rr with
           | error e => simp [toPlain]
@@ -398,21 +400,23 @@ theorem rstep_ref (f : Nat) (hV : RVal G f) : RRef G (f+1) := by
   | some t => exact Frame.refl s
   | none =>
     simp only
-    cases ha : alloc s with
-    | error e => exact Frame.refl s
-    | ok p =>
-      obtain ⟨n, s1⟩ := p
-      obtain ⟨hn, hs1⟩ := alloc_ok ha
-      subst hn; subst hs1
+    cases hw : walkFrom G s.trans r with
+    | fails e => exact Frame.refl s
+    | dead => exact Frame.refl s
+    | known t chain => exact (Frame.refl s).of_eq rfl rfl
+    | ends v chain =>
       simp only
-      have h0 : Frame s { trans := (r, refOf s.next) :: s.trans, next := s.next + 1, puts := s.puts } :=
-        ⟨by simp, [], by simp, by simp, by simp⟩
-      cases hr : resolveOrNull G r with
-      | error e => exact h0.of_eq rfl rfl
-      | ok v =>
+      cases ha : alloc s with
+      | error e => exact Frame.refl s
+      | ok p =>
+        obtain ⟨n, s1⟩ := p
+        obtain ⟨hn, hs1⟩ := alloc_ok ha
+        subst hn; subst hs1
         simp only
-        have h1 := hV { trans := (r, refOf s.next) :: s.trans, next := s.next + 1, puts := s.puts } v
-        cases h : copyValE f G { trans := (r, refOf s.next) :: s.trans, next := s.next + 1, puts := s.puts } v with
+        have h0 : Frame s { trans := enter chain (refOf s.next) s.trans, next := s.next + 1, puts := s.puts } :=
+          ⟨by simp, [], by simp, by simp, by simp⟩
+        have h1 := hV { trans := enter chain (refOf s.next) s.trans, next := s.next + 1, puts := s.puts } v
+        cases h : copyValE f G { trans := enter chain (refOf s.next) s.trans, next := s.next + 1, puts := s.puts } v with
         | mk rr s3 =>
           rw [h] at h1
           have h03 := h0.trans h1
@@ -502,6 +506,8 @@ theorem failed_copy_trans_unchanged {G : Graph} {f : Nat} {s s' : St} {r : Ref} 
     · cases h
     · split at h
       · cases h; rfl
+      · cases h; rfl
+      · cases h
       · split at h
         · cases h; rfl
         · split at h
@@ -522,16 +528,25 @@ theorem failed_copy_keeps_consistent {G : Graph} {Rd : List Ref} {f : Nat} {s s'
   exact ⟨ht, hf.1, hf, frame_consistent hc hf ht⟩
 
 /-- whatever its outcome, `CopyReference` keeps the state consistent -/
-theorem copyRefE_consistent {G : Graph} {Rd : List Ref} (f : Nat) (s : St) (r : Ref)
+theorem copyRefE_consistent {G : Graph} (hL : LinkInv G) {Rd : List Ref} (f : Nat) (s : St) (r : Ref)
     (hc : Consistent G Rd s) : Consistent G Rd (copyRefE f G s r).2 := by
   cases h : copyRefE f G s r with
   | mk x s' =>
     cases x with
     | error e => exact (failed_copy_keeps_consistent hc h).2.2.2
-    | ok t => exact (copyRef_effect ((copyRefE_ok G).mp h)).1.consistent hc
+    | ok t => exact copyRef_consistent hL hc ((copyRefE_ok G).mp h)
+
+theorem consistent_weaken {G : Graph} {Rd : List Ref} {s : St} (r : Ref) (hc : Consistent G Rd s) :
+    Consistent G (r :: Rd) s := by
+  obtain ⟨c1, c2, c3⟩ := hc
+  refine ⟨c1, c2, fun src t hm hr => c3 src t hm ?_⟩
+  rintro (h | ⟨x, hx, hl⟩)
+  · exact hr (Or.inl (List.mem_cons_of_mem _ h))
+  · exact hr (Or.inr ⟨x, List.mem_cons_of_mem _ hx, hl⟩)
 
 section
-variable (G : Graph) (Rd : List Ref)
+variable (G : Graph) (hLk : LinkInv G) (Rd : List Ref)
+include hLk
 
 def CObj (f : Nat) : Prop := ∀ s o, Consistent G Rd s → Consistent G Rd (copyObjE f G s o).2
 def CList (f : Nat) : Prop := ∀ s xs, Consistent G Rd s → Consistent G Rd (copyListE f G s xs).2
@@ -555,7 +570,7 @@ theorem cstep_obj (f : Nat) (hL : CList G Rd f) (hK : CKV G Rd f) : CObj G Rd (f
     | mk r s1 => rw [h] at this; cases r <;> exact this
   | ref n g =>
     simp only [copyObjE]
-    have := copyRefE_consistent f s (n, g) hc
+    have := copyRefE_consistent hLk f s (n, g) hc
     cases h : copyRefE f G s (n, g) with
     | mk r s1 => rw [h] at this; cases r <;> exact this
   | _ => simp only [copyObjE]; exact hc
@@ -677,8 +692,8 @@ theorem consistent_main : ∀ f : Nat,
     · intro s o hc; simp only [copyValE]; exact hc
   | succ f ih =>
     obtain ⟨hO, hL, hK, hI, hS, hV⟩ := ih
-    exact ⟨cstep_obj G Rd f hL hK, cstep_list G Rd f hO hL, cstep_kv G Rd f hO hK, cstep_inl G Rd f hO,
-      cstep_sd G Rd f hK hI, cstep_val G Rd f hO hS⟩
+    exact ⟨cstep_obj G hLk Rd f hL hK, cstep_list G hLk Rd f hO hL, cstep_kv G hLk Rd f hO hK, cstep_inl G hLk Rd f hO,
+      cstep_sd G hLk Rd f hK hI, cstep_val G hLk Rd f hO hS⟩
 
 end
 
@@ -705,21 +720,21 @@ theorem allocPutE_consistent {G : Graph} {Rd : List Ref} (s : St) (v : Val) (hc 
         unfold allocPut; rw [ha]; simp only; rw [hp]
       exact ⟨allocPut_consistent hc hap, (allocPut_ok hap).2.1⟩
 
-theorem stepOpE_consistent {G : Graph} {fuel : Nat} {Rd : List Ref} (s : St)
+theorem stepOpE_consistent {G : Graph} (hL : LinkInv G) {fuel : Nat} {Rd : List Ref} (s : St)
     (roots : List (Except CErr Ref)) (op : Op) (hc : Consistent G Rd s)
     (hfresh : ∀ r ∈ opRedirect op, assoc r s.trans = none) :
     Consistent G (opRedirect op ++ Rd) (stepOpE fuel G s roots op).2 := by
   cases op with
   | copyRef r =>
     simp only [stepOpE, opRedirect, List.nil_append]
-    exact copyRefE_consistent fuel s r hc
+    exact copyRefE_consistent hL fuel s r hc
   | copyGet r =>
     simp only [stepOpE, opRedirect, List.nil_append]
     cases hg : CPY.get G r true with
     | error e => exact hc
     | ok v =>
       simp only
-      have h1 := (consistent_main G Rd fuel).2.2.2.2.2 s v hc
+      have h1 := (consistent_main G hL Rd fuel).2.2.2.2.2 s v hc
       cases h : copyValE fuel G s v with
       | mk x s1 =>
         rw [h] at h1
@@ -728,7 +743,7 @@ theorem stepOpE_consistent {G : Graph} {fuel : Nat} {Rd : List Ref} (s : St)
         | ok v' => exact (allocPutE_consistent s1 v' h1).1
   | copyObj o =>
     simp only [stepOpE, opRedirect, List.nil_append]
-    have h1 := (consistent_main G Rd fuel).1 s o hc
+    have h1 := (consistent_main G hL Rd fuel).1 s o hc
     cases h : copyObjE fuel G s o with
     | mk x s1 =>
       rw [h] at h1
@@ -743,15 +758,12 @@ theorem stepOpE_consistent {G : Graph} {fuel : Nat} {Rd : List Ref} (s : St)
       rw [h] at h1
       cases x with
       | error e =>
-        obtain ⟨c1, c2, c3⟩ := h1.1
-        exact ⟨c1, c2, fun src t hm hr => c3 src t hm (fun hin => hr (List.mem_cons_of_mem _ hin))⟩
+        exact consistent_weaken r h1.1
       | ok n =>
         exact redirect_consistent h1.1 r n (by rw [h1.2]; exact hfresh r (by simp [opRedirect]))
   | redirectTo r k =>
     simp only [stepOpE, opRedirect, List.cons_append, List.nil_append]
-    have weaken : Consistent G (r :: Rd) s := by
-      obtain ⟨c1, c2, c3⟩ := hc
-      exact ⟨c1, c2, fun src t hm hr => c3 src t hm (fun hin => hr (List.mem_cons_of_mem _ hin))⟩
+    have weaken : Consistent G (r :: Rd) s := consistent_weaken r hc
     split
     · next t ht => exact redirect_consistent hc r t (hfresh r (by simp [opRedirect]))
     · exact weaken
@@ -767,15 +779,15 @@ def RedirectsFreshE (fuel : Nat) (G : Graph) : St → List (Except CErr Ref) →
 new Copier — in which any number of calls may *fail* and the caller just goes on — ends in a
 consistent state: whatever is translated (and was not redirected by the caller) has been written
 and is the image of its source. -/
-theorem runE_consistent {G : Graph} {fuel : Nat} :
+theorem runE_consistent {G : Graph} (hL : LinkInv G) {fuel : Nat} :
     ∀ (ops : List Op) (Rd : List Ref) (s : St) (roots : List (Except CErr Ref)),
       Consistent G Rd s → RedirectsFreshE fuel G s roots ops →
       Consistent G (redirectsOf ops ++ Rd) (runOpsE fuel G s roots ops).2
   | [], Rd, s, roots, hc, _ => by simpa [runOpsE, redirectsOf] using hc
   | op :: ops, Rd, s, roots, hc, hf => by
     simp only [RedirectsFreshE] at hf
-    have hc1 := stepOpE_consistent (fuel := fuel) s roots op hc hf.1
-    have := runE_consistent ops _ _ _ hc1 hf.2
+    have hc1 := stepOpE_consistent hL (fuel := fuel) s roots op hc hf.1
+    have := runE_consistent hL ops _ _ _ hc1 hf.2
     simp only [runOpsE]
     simpa [redirectsOf, List.append_assoc] using this
 
@@ -890,14 +902,14 @@ def errOf {α : Type} : Except CErr α → Option CErr
 
 /-- `CopyReference(3)` fails with the read error of 4 *after* object 2 has been copied and written
     (as number 3, referring to the number 2 allocated for 3, which is never written).  The state
-    left behind has an empty `trans` again (before fix bdb0240 it kept `2 ↦ 3`), three numbers are
+    left behind has an empty `trans` again (before fix bdb0240 it kept `2 ↦ 3`), two numbers are
     used up, one unreachable object is in the file — and the second attempt fails the same way
     instead of answering with a stale reference. -/
 example :
     let r1 := copyRefE 20 G1 (St.init 2) (3, 0)
     let r2 := copyRefE 20 G1 r1.2 (2, 0)
-    errOf r1.1 = some .read ∧ r1.2.trans = [] ∧ r1.2.next = 5 ∧ r1.2.puts.map Prod.fst = [(3, 0)] ∧
-    errOf r2.1 = some .read ∧ r2.2.trans = [] ∧ r2.2.next = 8 := by
+    errOf r1.1 = some .read ∧ r1.2.trans = [] ∧ r1.2.next = 4 ∧ r1.2.puts.map Prod.fst = [(3, 0)] ∧
+    errOf r2.1 = some .read ∧ r2.2.trans = [] ∧ r2.2.next = 6 := by
   decide +kernel
 
 end PdfVerif.C11cpyd
